@@ -49,11 +49,34 @@ impl<'a> Judge<'a> {
             cx.violation("HARNESS|C02|libsodium_accepts_tampered_input", json!({"family":format!("{:?}",fam),"component":component,"kind":kind,"detail":detail}));
             return;
         }
-        for o in self.forms.iter().filter(|o| o.family == fam && !(cheap_only && o.costly)) {
+        // second pass for length-changing faults: the caller's message buffer has the length of the *genuine* message
+        // (a receiver that knows what it expects), not the length the tampered wire implies
+        let passes: &[Option<usize>] = if component == "ciphertext" && (kind == "truncate" || kind == "extend") { &[None, Some(msglen)] } else { &[None] };
+        for (o, buflen) in self.forms.iter().filter(|o| o.family == fam && !(cheap_only && o.costly)).flat_map(|o| passes.iter().map(move |p| (o, *p))) {
+            let kind_s = if buflen.is_some() { format!("{}(buffer sized for the genuine message)", kind) } else { kind.to_string() };
+            let kind = kind_s.as_str();
             let case = || json!({"form":o.name,"component":component,"fault":kind,"detail":detail,"msglen":msglen,
                 "ct":hx(&w.ct[..w.ct.len().min(96)]),"nonce":hx(&w.nonce),"key":hx(&w.key),"pk":hx(&w.pk),"sk":hx(&w.sk)});
             let sigp = if self.prop == Prop::C02 { format!("C02|{}", o.name) } else { format!("C17|{}", o.name) };
-            let Some(r) = call(cx, &sigp, o.name, case, || (o.f)(w, &self.sentinel)) else { continue };
+            let r = if buflen.is_some() {
+                // a panic on a mis-sized caller buffer is the caller's contract, not an answer about the ciphertext
+                crate::mon::aead::OUT_LEN.with(|c| c.set((buflen, false)));
+                let r = crate::ctx::guard(o.name, || (o.f)(w, &self.sentinel));
+                let used = crate::mon::aead::OUT_LEN.with(|c| c.replace((None, false))).1;
+                if !used {
+                    continue;
+                }
+                match r {
+                    Ok(r) => r,
+                    Err(_) => {
+                        cx.cover("mis_sized_buffer", &format!("{}|{}|panics", o.name, kind));
+                        continue;
+                    }
+                }
+            } else {
+                let Some(r) = call(cx, &sigp, o.name, case, || (o.f)(w, &self.sentinel)) else { continue };
+                r
+            };
             let Some(r) = r else { continue };
             cx.eval();
             cx.cover("form_x_component_x_fault", &format!("{}|{}|{}", o.name, component, kind));
@@ -187,13 +210,22 @@ struct SOut {
 
 const TAG_SENTINEL: u8 = 0xA5;
 
+impl SOut {
+    /// an authentic earlier message of the stream was refused (the delivery under test was never reached)
+    fn prior_rejected() -> SOut {
+        SOut { ok: false, msg_after: vec![], msg_before: vec![], tag_after: TAG_SENTINEL, caller_buffer: false, got: vec![], got_tag: 0, err: "PRIOR_REJECTED".into(), retry_ok: None }
+    }
+}
+
 fn st_classic(w: &SWire, s: &[u8]) -> Option<SOut> {
     let mut st = ss::State::new();
     ss::crypto_secretstream_xchacha20poly1305_init_pull(&mut st, &w.header, &w.key);
     for p in &w.prior {
         let mut m = vec![0u8; p.len() - 17];
         let mut t = 0u8;
-        ss::crypto_secretstream_xchacha20poly1305_pull(&mut st, &mut m, &mut t, p, None).ok()?;
+        if ss::crypto_secretstream_xchacha20poly1305_pull(&mut st, &mut m, &mut t, p, None).is_err() {
+            return Some(SOut::prior_rejected());
+        }
     }
     if w.ct.len() < 17 {
         // the classic pull has no defined behaviour contract for this except totality (C04); a caller
@@ -218,7 +250,9 @@ fn st_classic(w: &SWire, s: &[u8]) -> Option<SOut> {
 fn st_object(w: &SWire, _s: &[u8]) -> Option<SOut> {
     let mut st: DryocStream<Pull> = DryocStream::init_pull(&w.key, &w.header);
     for p in &w.prior {
-        st.pull_to_vec(p, None).ok()?;
+        if st.pull_to_vec(p, None).is_err() {
+            return Some(SOut::prior_rejected());
+        }
     }
     if w.ct.len() < 17 {
         return None;
@@ -262,6 +296,12 @@ fn stream_tampered(cx: &mut Ctx, prop: Prop, sentinel: &[u8], w: &SWire, compone
         let Some(r) = call(cx, &format!("{}|{}", pfx, name), name, case, || f(w, sentinel)) else { continue };
         let Some(r) = r else { continue };
         cx.eval();
+        if r.err == "PRIOR_REJECTED" {
+            if prop == Prop::C02 && component != "key" && component != "header" {
+                cx.violation(&format!("C02|{}|rejects_untampered_earlier_message", name), case());
+            }
+            continue;
+        }
         cx.cover("form_x_component_x_fault", &format!("{}|{}|{}", name, component, kind));
         match prop {
             Prop::C02 => {
@@ -469,8 +509,12 @@ fn run(cx: &mut Ctx, prop: Prop) {
                 let (mut st, header) = na::stream_init_push(&key);
                 let mut prior = Vec::new();
                 if pos == 2 {
-                    prior.push(na::stream_push(&mut st, b"first", None, 0));
-                    prior.push(na::stream_push(&mut st, b"second, rekeys", None, 2));
+                    // earlier messages carry any tag byte (REKEY bit set or not, FINAL, application bits)
+                    let t1 = *rng.pick(&[0u8, 1, 0x80, 0x41, 0xfc]);
+                    let t2 = *rng.pick(&[2u8, 3, 0x82, 0x83, 0xfe, 0xff, 0x02, 0x03]);
+                    prior.push(na::stream_push(&mut st, b"first", None, t1));
+                    prior.push(na::stream_push(&mut st, b"second, rekeys", None, t2));
+                    cx.cover("stream_prior_tags", &format!("{:#04x},{:#04x}", t1, t2));
                 }
                 let ct = na::stream_push(&mut st, &msg, ad.as_deref(), tag);
                 let w0 = SWire { key, header, ad: ad.clone(), prior, ct: ct.clone(), genuine: ct, genuine_ad: ad, genuine_key_header: true };
